@@ -149,6 +149,37 @@ func c15Run(v *c15Vec) (obs []callRec, herr string) {
 	ref := refDir(v.Depth) + "zref"
 	q := `"` + name + `"`
 	var data interface{}
+	// history: the same spelling is first used by a referrer in another directory of the same Set (a name is
+	// resolved against the directory of the template that uses it, every time); skipped when both resolve to
+	// the same file, because the first use would then legitimately fill the cache
+	relEntry := v.Entry != "exec" && v.Entry != "includeIfExists" // those two resolve against the root, wherever they are used
+	if pre := "/pq/rs/zpre"; relEntry && !strings.HasPrefix(name, "/") && path.Join("/pq/rs", name) != canon {
+		var psrc string
+		switch v.Entry {
+		case "extends", "ParseExtends":
+			psrc = "{{extends " + q + "}}"
+		case "import":
+			psrc = "{{import " + q + "}}"
+		case "include", "GetTemplate":
+			psrc = "{{include " + q + "}}"
+		case "includeData":
+			psrc = "{{include .}}"
+		case "exec":
+			psrc = "{{exec(" + q + ")}}"
+		case "includeIfExists":
+			psrc = "{{includeIfExists(" + q + ")}}"
+		}
+		mem.Set(pre+v.Exts[0], psrc)
+		if t, err := set.GetTemplate(pre); err == nil {
+			func() {
+				defer func() { recover() }()
+				t.Execute(io.Discard, nil, name)
+			}()
+		}
+		rec.mu.Lock()
+		rec.calls = nil
+		rec.mu.Unlock()
+	}
 	switch v.Entry {
 	case "GetTemplate":
 		set.GetTemplate(name)
@@ -188,7 +219,7 @@ func c15Run(v *c15Vec) (obs []callRec, herr string) {
 		}()
 	}
 	for _, c := range rec.calls {
-		if strings.Contains(c.Path, "zref") {
+		if strings.Contains(c.Path, "zref") || strings.Contains(c.Path, "zpre") {
 			continue
 		}
 		obs = append(obs, c)
